@@ -208,6 +208,56 @@ func registerWeb(p *Program) {
 		return nil
 	}
 
+	// ---- urfave/cli: contexts built by the harness (vpCliContext) ----
+	// vpCliContext(globals map[string]string, locals map[string]string, args []string) *cli.Context
+	I["vp:vpCliContext"] = func(in *Interp, fr *frame, a []Value) Value {
+		t := in.namedType("github.com/urfave/cli", "Context")
+		o := in.newObj(t)
+		o.Tag = &cliModel{globals: a[0].(*MapObj), locals: a[1].(*MapObj), args: a[2].(Slice)}
+		return Ptr{Obj: o}
+	}
+	cliGet := func(in *Interp, m *MapObj, k Value) (Str, bool) {
+		if m != nil {
+			for _, e := range m.Entries {
+				if in.strEq(e.K.(Str), k.(Str)).IsTrue() {
+					return e.V.(Str), true
+				}
+			}
+		}
+		return Str{}, false
+	}
+	I["(*github.com/urfave/cli.Context).Args"] = func(in *Interp, fr *frame, a []Value) Value {
+		return a[0].(Ptr).Obj.Tag.(*cliModel).args
+	}
+	I["(*github.com/urfave/cli.Context).GlobalString"] = func(in *Interp, fr *frame, a []Value) Value {
+		s, _ := cliGet(in, a[0].(Ptr).Obj.Tag.(*cliModel).globals, a[1])
+		return s
+	}
+	I["(*github.com/urfave/cli.Context).String"] = func(in *Interp, fr *frame, a []Value) Value {
+		s, _ := cliGet(in, a[0].(Ptr).Obj.Tag.(*cliModel).locals, a[1])
+		return s
+	}
+	cliBool := func(global bool) Intrinsic {
+		return func(in *Interp, fr *frame, a []Value) Value {
+			cm := a[0].(Ptr).Obj.Tag.(*cliModel)
+			m := cm.locals
+			if global {
+				m = cm.globals
+			}
+			s, ok := cliGet(in, m, a[1])
+			if !ok {
+				return in.ts.False
+			}
+			return in.strEq(s, in.strConst("true"))
+		}
+	}
+	I["(*github.com/urfave/cli.Context).GlobalBool"] = cliBool(true)
+	I["(*github.com/urfave/cli.Context).Bool"] = cliBool(false)
+	I["github.com/urfave/cli.ShowCommandHelp"] = func(in *Interp, fr *frame, a []Value) Value { return Iface{} }
+	I["github.com/howeyc/gopass.GetPasswd"] = func(in *Interp, fr *frame, a []Value) Value {
+		return Tuple{Slice{}, in.newErrorf("no terminal")}
+	}
+
 	// ---- net/http helpers ----
 	I["(*net/http.Request).SetBasicAuth"] = func(in *Interp, fr *frame, a []Value) Value {
 		a[0].(Ptr).Obj.Tag = [2]Str{a[1].(Str), a[2].(Str)}
@@ -270,6 +320,11 @@ func registerWeb(p *Program) {
 		return nil
 	}
 	I["(net/http.Header).Del"] = I["net/http.Header.Del"]
+}
+
+type cliModel struct {
+	globals, locals *MapObj
+	args            Slice
 }
 
 type yamlDec struct {
